@@ -77,6 +77,7 @@ type memberInit struct {
 
 type tcase struct {
 	ID      int          `json:"id"`
+	Kind    string       `json:"kind"` // "" = pledge-level script, "cluster" = cluster.Open-level script
 	Members []memberInit `json:"members"`
 	Ops     []op         `json:"ops"`
 	RtUs    int          `json:"rt_us"`
@@ -501,6 +502,9 @@ func (h *harness) runPledge(spec pledgeSpec) {
 }
 
 func runCase(c tcase) (out result) {
+	if c.Kind == "cluster" {
+		return runCluster(c)
+	}
 	out.ID = c.ID
 	h := &harness{
 		gorun: map[int64]uint32{}, injuror: map[int64]bool{}, views: map[uint32][]viewEnt{},
